@@ -2,8 +2,11 @@ package sort2
 
 import "sort"
 
+// Slice sorts x by less and keeps the original order of equal elements: participants of equal rank
+// (loaders, runners, post processors) stay in the order they were given in, however many there are
+// (sort.Slice only does so by accident, for up to 12 elements).
 func Slice[T any](x []T, less func(i T, j T) bool) {
-	sort.Slice(x, func(i, j int) bool {
+	sort.SliceStable(x, func(i, j int) bool {
 		return less(x[i], x[j])
 	})
 }
